@@ -1,5 +1,5 @@
 """
-gen_c14.py — translator part for C14 (writes, save modes):  Gen/Writer.lean
+gen_c14.py — translator part for C14 (writes, save modes):  Gen/Writer.lean, Gen/C14Options.lean
 
 Extracted from /repo's working tree with Python `ast` (sqlframe is never imported):
 
@@ -7,6 +7,14 @@ Extracted from /repo's working tree with Python `ast` (sqlframe is never importe
                                  _BaseDataFrameWriter.insertInto    -> byNameReorders, byNameSource, insertExecutes, insertPassesOverwrite
                                  _BaseDataFrameWriter._validate_mode-> pathMode, validateMode
   sqlframe/duckdb/readwriter.py  DuckDBDataFrameWriter._write       -> fileValidatesFirst, fileAppendRaises
+
+  Gen/C14Options.lean (how the options of the file writers / readers reach the engine):
+  sqlframe/base/util.py          to_csv                             -> toCsvKeeps (the `if` of its comprehension), toCsvJoin
+  sqlframe/base/readerwriter.py  _BaseDataFrameWriter.csv/json/parquet -> writerParams, writerCall (keyword -> literal | parameter)
+                                 _BaseDataFrameReader.csv/json/parquet -> readerParams, readerCall, readerKeeps, readerMerge
+                                 _BaseDataFrameReader.option/options   -> optionSets, optionsMerge
+  sqlframe/duckdb/readwriter.py  DuckDBDataFrameWriter._write       -> duckWriteEq, duckWriteFormatInOptions
+                                 DuckDBDataFrameReader.load         -> loadMerge, loadPops, loadColumnsFor, loadEq, loadReloadsWithSchema
 
 `saveAsTable` is run by a small symbolic interpreter, once per (mode literal, target-exists) pair; the
 statement shapes it understands are listed in `_SaveInterp`.  Anything else raises Untranslatable.
@@ -631,4 +639,455 @@ def gen_writer(repo: str) -> str:
     return "\n".join(out) + "\n"
 
 
-GENERATORS = {"Writer": gen_writer}
+
+# ------------------------------------------------------------------------------------------------
+# Gen/C14Options.lean — which options of write.csv/json/parquet and read.csv/json/parquet/load reach the
+# engine, under which key, with which value, and who wins when a key is given twice
+# ------------------------------------------------------------------------------------------------
+
+OBO = "Gen.C14Options"
+FILE_FORMATS = ["csv", "json", "parquet"]
+
+
+def _nodoc(body: t.Sequence[ast.stmt]) -> t.List[ast.stmt]:
+    return [st for st in body if not (isinstance(st, ast.Expr) and isinstance(st.value, ast.Constant) and isinstance(st.value.value, str))]
+
+
+def _keep_cond(n: ast.expr, var: str, ob: str) -> str:
+    """a filter condition over one option value `var` -> Lean Bool over `v : OptVal`"""
+    if isinstance(n, ast.Name) and n.id == var:
+        return "v.truthy"
+    if isinstance(n, ast.Compare) and len(n.ops) == 1 and isinstance(n.left, ast.Name) and n.left.id == var:
+        r = n.comparators[0]
+        if isinstance(r, ast.Constant) and r.value is None:
+            if isinstance(n.ops[0], ast.IsNot):
+                return "(!v.isNone)"
+            if isinstance(n.ops[0], ast.Is):
+                return "v.isNone"
+    if isinstance(n, ast.UnaryOp) and isinstance(n.op, ast.Not):
+        return f"(!{_keep_cond(n.operand, var, ob)})"
+    if isinstance(n, ast.BoolOp):
+        j = " && " if isinstance(n.op, ast.And) else " || "
+        return "(" + j.join(_keep_cond(x, var, ob) for x in n.values) + ")"
+    raise Untranslatable(ob, f"unsupported option filter {_dotted(n)!r}")
+
+
+def _filtered_items(n: ast.expr, src: str, ob: str) -> t.Optional[str]:
+    """`{k: v for k, v in <src>.items() if <cond>}` -> the Lean condition; None when `n` is something else"""
+    if not isinstance(n, ast.DictComp) or len(n.generators) != 1:
+        return None
+    g = n.generators[0]
+    if g.is_async or not (isinstance(g.target, ast.Tuple) and len(g.target.elts) == 2 and all(isinstance(e, ast.Name) for e in g.target.elts)):
+        return None
+    k, v = g.target.elts[0].id, g.target.elts[1].id  # type: ignore
+    if _dotted(g.iter) not in (f"{src}.items()", f"({src} or {{}}).items()"):
+        return None
+    if not (isinstance(n.key, ast.Name) and n.key.id == k and isinstance(n.value, ast.Name) and n.value.id == v):
+        raise Untranslatable(ob, f"options are rewritten, not filtered: {_dotted(n)[:80]!r}")
+    return " && ".join(_keep_cond(c, v, ob) for c in g.ifs) if g.ifs else "true"
+
+
+def _merge_display(n: ast.expr, state: str, call: str, ob: str) -> t.Tuple[t.List[str], str]:
+    """`{**<state>, **<call or filtered call>}` -> (order of the sources, Lean filter condition applied to the call's options)"""
+    if not (isinstance(n, ast.Dict) and n.keys and all(k is None for k in n.keys)):
+        raise Untranslatable(ob, f"not a merge of dictionaries: {_dotted(n)[:80]!r}")
+    order: t.List[str] = []
+    keep = "true"
+    for val in n.values:
+        if _dotted(val) == state:
+            order.append("OptSrc.state")
+            continue
+        if isinstance(val, ast.Name) and val.id == call:
+            order.append("OptSrc.call")
+            continue
+        c = _filtered_items(val, call, ob)
+        if c is not None:
+            order.append("OptSrc.call")
+            keep = c
+            continue
+        raise Untranslatable(ob, f"unsupported operand {_dotted(val)[:60]!r} in {_dotted(n)[:80]!r}")
+    if order.count("OptSrc.call") > 1:
+        raise Untranslatable(ob, "the call's options are merged twice")
+    return order, keep
+
+
+def _params(fn: ast.FunctionDef, fixed: t.List[str], ob: str) -> t.List[str]:
+    a = fn.args
+    if a.posonlyargs or a.kwonlyargs:
+        raise Untranslatable(ob, f"{fn.name}: unsupported parameter kinds")
+    names = [x.arg for x in a.args]
+    if names[: len(fixed)] != fixed:
+        raise Untranslatable(ob, f"{fn.name} signature starts with {names[:len(fixed)]}, expected {fixed}")
+    opt = names[len(fixed) :]
+    defaults = a.defaults[len(a.defaults) - len(opt) :] if opt else []
+    if len(defaults) != len(opt) or not all(isinstance(d, ast.Constant) and d.value is None for d in defaults):
+        raise Untranslatable(ob, f"{fn.name}: an option parameter has a default other than None")
+    return opt
+
+
+def _kw_table(keywords: t.List[ast.keyword], params: t.List[str], skip: t.Dict[str, str], ob: str) -> t.List[t.Tuple[str, str]]:
+    """keyword arguments -> [(key, Lean WArg)]; `skip` = keywords that must be passed through verbatim (path=path, …)"""
+    out = []
+    seen = set()
+    for kw in keywords:
+        if kw.arg is None:
+            raise Untranslatable(ob, f"options are passed as **{_dotted(kw.value)[:40]}")
+        if kw.arg in skip:
+            if _dotted(kw.value) != skip[kw.arg]:
+                raise Untranslatable(ob, f"{kw.arg}={_dotted(kw.value)[:40]!r}")
+            seen.add(kw.arg)
+            continue
+        v = kw.value
+        if isinstance(v, ast.Constant) and isinstance(v.value, str):
+            out.append((kw.arg, f"WArg.lit {lean_str(v.value)}"))
+        elif isinstance(v, ast.Name) and v.id in params:
+            out.append((kw.arg, f"WArg.param {lean_str(v.id)}"))
+        else:
+            raise Untranslatable(ob, f"option {kw.arg} is given the value {_dotted(v)[:50]!r}")
+    if seen != set(skip):
+        raise Untranslatable(ob, f"missing keyword(s) {sorted(set(skip) - seen)}")
+    return out
+
+
+def _lean_list(items: t.Iterable[str]) -> str:
+    return "[" + ", ".join(items) + "]"
+
+
+def _by_format(name: str, ty: str, table: t.Dict[str, str], default: str) -> t.List[str]:
+    out = [f"def {name} (fmt : String) : {ty} :="]
+    for f in FILE_FORMATS:
+        out.append(f"  if fmt = {lean_str(f)} then {table[f]} else")
+    out.append(f"  {default}")
+    return out
+
+
+def _gen_to_csv(repo: str) -> t.List[str]:
+    ob = OBO + ".toCsv"
+    fn = find_func(parse(repo, "sqlframe/base/util.py").body, "to_csv")
+    names = [a.arg for a in fn.args.args]
+    if names != ["options", "equality_char"] or len(fn.args.defaults) != 1 or not (isinstance(fn.args.defaults[0], ast.Constant) and fn.args.defaults[0].value == "="):
+        raise Untranslatable(ob, f"to_csv signature {names}")
+    body = _nodoc(fn.body)
+    if len(body) != 1 or not isinstance(body[0], ast.Return):
+        raise Untranslatable(ob, "to_csv is not a single return")
+    r = body[0].value
+    if not (isinstance(r, ast.Call) and isinstance(r.func, ast.Attribute) and r.func.attr == "join" and isinstance(r.func.value, ast.Constant) and isinstance(r.func.value.value, str) and len(r.args) == 1):
+        raise Untranslatable(ob, "to_csv does not join its items with a literal separator")
+    sep = r.func.value.value
+    comp = r.args[0]
+    if not isinstance(comp, (ast.ListComp, ast.GeneratorExp)) or len(comp.generators) != 1:
+        raise Untranslatable(ob, "to_csv's items are not one comprehension")
+    g = comp.generators[0]
+    if not (isinstance(g.target, ast.Tuple) and [_dotted(e) for e in g.target.elts] == ["k", "v"] and _dotted(g.iter) in ("(options or {}).items()", "options.items()")):
+        raise Untranslatable(ob, f"to_csv iterates {_dotted(g.iter)[:50]!r}")
+    if _dotted(comp.elt) != "f'{k}{equality_char}{v}'":
+        raise Untranslatable(ob, f"to_csv renders an item as {_dotted(comp.elt)[:60]!r}")
+    keep = " && ".join(_keep_cond(c, "v", ob) for c in g.ifs) if g.ifs else "true"
+    return [
+        "/-- `util.to_csv`: which (key, value) pairs of the option dictionary are rendered (the `if` of its comprehension) -/",
+        f"def toCsvKeeps (v : OptVal) : Bool := {keep}",
+        "/-- `', '.join(f'{k}{equality_char}{v}' …)` -/",
+        f"def toCsvJoin : String := {lean_str(sep)}",
+    ]
+
+
+def _gen_writer_entries(cls: ast.ClassDef) -> t.List[str]:
+    params: t.Dict[str, str] = {}
+    calls: t.Dict[str, str] = {}
+    for fmt in FILE_FORMATS:
+        ob = f"{OBO}.writer.{fmt}"
+        fn = find_func(cls.body, fmt)
+        ps = _params(fn, ["self", "path", "mode"], ob)
+        if fn.args.vararg or fn.args.kwarg:
+            raise Untranslatable(ob, "writer entry point takes *args / **kwargs")
+        body = _nodoc(fn.body)
+        if len(body) != 1 or not (isinstance(body[0], ast.Expr) and isinstance(body[0].value, ast.Call) and _dotted(body[0].value.func) == "self._write" and not body[0].value.args):
+            raise Untranslatable(ob, f"write.{fmt}() is not a single `self._write(path=…, mode=…, format=…, <option>=<parameter>, …)` call")
+        tab = _kw_table(body[0].value.keywords, ps, {"path": "path", "mode": "mode"}, ob)
+        params[fmt] = _lean_list(lean_str(p) for p in ps)
+        calls[fmt] = _lean_list(f"({lean_str(k)}, {v})" for k, v in tab)
+    out = ["/-- option parameters of `DataFrameWriter.csv / json / parquet` (after self, path, mode; all default to None) -/"]
+    out += _by_format("writerParams", "List String", params, "[]")
+    out.append("/-- the keywords `self._write(path=path, mode=mode, …)` receives, in order: a literal or one of the parameters -/")
+    out += _by_format("writerCall", "List (String × WArg)", calls, "[]")
+    return out
+
+
+def _gen_duck_write_opts(repo: str) -> t.List[str]:
+    ob = OBO + ".duckdbWrite"
+    cls = find_class(parse(repo, "sqlframe/duckdb/readwriter.py"), "DuckDBDataFrameWriter")
+    fn = find_func(cls.body, "_write")
+    a = fn.args
+    if [x.arg for x in a.args] != ["self", "path", "mode"] or a.vararg or a.kwonlyargs or not a.kwarg or a.kwarg.arg != "options":
+        raise Untranslatable(ob, "signature is not _write(self, path, mode, **options): `format` would not be among the options")
+    eq = None
+    copy_uses = 0
+    mentions = 0
+    for st in _nodoc(fn.body):
+        ms = sum(isinstance(n, ast.Name) and n.id == "options" for n in ast.walk(st))
+        if not ms:
+            continue
+        mentions += 1
+        if isinstance(st, ast.Assign) and _dotted(st.targets[0]) == "options" and isinstance(st.value, ast.Call) and _dotted(st.value.func) == "to_csv":
+            c = st.value
+            if eq is not None or copy_uses:
+                raise Untranslatable(ob, "options rendered twice / after use")
+            if len(c.args) != 1 or _dotted(c.args[0]) != "options" or len(c.keywords) > 1:
+                raise Untranslatable(ob, f"unsupported to_csv call {_dotted(c)[:60]!r}")
+            eq = "="
+            for kw in c.keywords:
+                if kw.arg != "equality_char" or not (isinstance(kw.value, ast.Constant) and isinstance(kw.value.value, str)):
+                    raise Untranslatable(ob, f"unsupported to_csv call {_dotted(c)[:60]!r}")
+                eq = kw.value.value
+            continue
+        if isinstance(st, ast.For):
+            txt = ast.unparse(st)
+            if eq is not None and txt.count("options") == 1 and "TO '{path}' ({options})" in txt and "COPY ({sql})" in txt:
+                copy_uses += 1
+                continue
+            raise Untranslatable(ob, "the COPY statement does not end with `TO '{path}' ({options})`")
+        raise Untranslatable(ob, f"the option dictionary is touched by {_dotted(st)[:70]!r}")
+    if eq is None or copy_uses != 1:
+        raise Untranslatable(ob, "options are not rendered by to_csv into one COPY statement")
+    return [
+        "/-- DuckDB `_write(self, path, mode, **options)`: `format=` is one of the options; `to_csv(options, equality_char=…)` -/",
+        "def duckWriteFormatInOptions : Bool := true",
+        f"def duckWriteEq : String := {lean_str(eq)}",
+    ]
+
+
+def _gen_reader_entries(repo: str) -> t.List[str]:
+    cls = find_class(parse(repo, "sqlframe/base/readerwriter.py"), "_BaseDataFrameReader")
+    params: t.Dict[str, str] = {}
+    calls: t.Dict[str, str] = {}
+    keeps: t.Dict[str, str] = {}
+    merges: t.Dict[str, str] = {}
+    for fmt in ("csv", "json"):
+        ob = f"{OBO}.reader.{fmt}"
+        fn = find_func(cls.body, fmt)
+        ps = _params(fn, ["self", "path", "schema"], ob)
+        if fn.args.vararg or fn.args.kwarg:
+            raise Untranslatable(ob, "reader entry point takes *args / **kwargs")
+        body = _nodoc(fn.body)
+        if len(body) != 3:
+            raise Untranslatable(ob, f"read.{fmt}() has {len(body)} statements, expected options = dict(…); all_options = {{…}}; return self.load(…)")
+        s1, s2, s3 = body
+        if not (isinstance(s1, ast.Assign) and _dotted(s1.targets[0]) == "options" and isinstance(s1.value, ast.Call) and _dotted(s1.value.func) == "dict" and not s1.value.args):
+            raise Untranslatable(ob, f"first statement is {_dotted(s1)[:60]!r}")
+        tab = _kw_table(s1.value.keywords, ps, {}, ob)
+        if not (isinstance(s2, ast.Assign) and _dotted(s2.targets[0]) == "all_options"):
+            raise Untranslatable(ob, f"second statement is {_dotted(s2)[:60]!r}")
+        order, keep = _merge_display(s2.value, "self.state_options", "options", ob)
+        if _dotted(s3) != f"return self.load(path=path, format='{fmt}', schema=schema, **all_options)":
+            raise Untranslatable(ob, f"last statement is {_dotted(s3)[:90]!r}")
+        params[fmt] = _lean_list(lean_str(p) for p in ps)
+        calls[fmt] = "some " + _lean_list(f"({lean_str(k)}, {v})" for k, v in tab)
+        keeps[fmt] = keep
+        merges[fmt] = _lean_list(order)
+    ob = f"{OBO}.reader.parquet"
+    fn = find_func(cls.body, "parquet")
+    a = fn.args
+    if [x.arg for x in a.args] != ["self"] or not a.vararg or a.vararg.arg != "paths" or not a.kwarg or a.kwarg.arg != "options" or a.kwonlyargs:
+        raise Untranslatable(ob, "signature is not parquet(self, *paths, **options)")
+    body = _nodoc(fn.body)
+    if len(body) != 3 or not (isinstance(body[0], ast.Assign) and _dotted(body[0].targets[0]) == "all_options"):
+        raise Untranslatable(ob, "read.parquet() is not all_options = {…}; dfs = […]; return reduce(…)")
+    order, keep = _merge_display(body[0].value, "self.state_options", "options", ob)
+    if _dotted(body[1]) != "dfs = [self.load(path=path, format='parquet', **all_options) for path in paths]":
+        raise Untranslatable(ob, f"second statement is {_dotted(body[1])[:90]!r}")
+    if _dotted(body[2]) != "return reduce(lambda a, b: a.union(b), dfs)":
+        raise Untranslatable(ob, f"last statement is {_dotted(body[2])[:90]!r}")
+    params["parquet"] = "[]"
+    calls["parquet"] = "none"
+    keeps["parquet"] = keep
+    merges["parquet"] = _lean_list(order)
+
+    # option / options / __init__ / session.read
+    ob = OBO + ".reader.state"
+    init = find_func(cls.body, "__init__")
+    inits = [_dotted(st) for st in init.body]
+    if not any(s.startswith("self.state_options") and s.endswith("= {}") for s in inits):
+        raise Untranslatable(ob, "__init__ does not start every reader with `self.state_options = {}`")
+    for st in cls.body:
+        if isinstance(st, (ast.Assign, ast.AnnAssign)) and "state_options" in _dotted(st):
+            raise Untranslatable(ob, "state_options is a class attribute (shared by every reader)")
+    opt = _nodoc(find_func(cls.body, "option").body)
+    if [_dotted(x) for x in opt] != ["self.state_options[key] = value", "return self"]:
+        raise Untranslatable(ob, f"option() is {' ; '.join(_dotted(x) for x in opt)[:100]!r}")
+    opts = _nodoc(find_func(cls.body, "options").body)
+    if len(opts) != 2 or not (isinstance(opts[0], ast.Assign) and _dotted(opts[0].targets[0]) == "self.state_options") or _dotted(opts[1]) != "return self":
+        raise Untranslatable(ob, f"options() is {' ; '.join(_dotted(x) for x in opts)[:100]!r}")
+    o_order, o_keep = _merge_display(opts[0].value, "self.state_options", "options", ob)
+    if o_keep != "true":
+        raise Untranslatable(ob, "options() filters what it is given")
+    sess = find_class(parse(repo, "sqlframe/base/session.py"), "_BaseSession")
+    rd = _nodoc(find_func(sess.body, "read").body)
+    if [_dotted(x) for x in rd] != ["return self._reader(self)"]:
+        raise Untranslatable(ob, "session.read does not build a fresh reader on every access")
+
+    out = ["/-- option parameters of `DataFrameReader.csv / json` (after self, path, schema; all default to None); `parquet(*paths, **options)` takes any -/"]
+    out += _by_format("readerParams", "List String", params, "[]")
+    out.append("/-- `options = dict(<key>=<parameter>, …)`; `none`: the keyword arguments are taken as they are (parquet) -/")
+    out += _by_format("readerCall", "Option (List (String × WArg))", calls, "none")
+    out.append("/-- the filter the front end applies to the call's options before merging -/")
+    out.append("def readerKeeps (fmt : String) (v : OptVal) : Bool :=")
+    for f in FILE_FORMATS:
+        out.append(f"  if fmt = {lean_str(f)} then {keeps[f]} else")
+    out.append("  true")
+    out.append("/-- `all_options = {**a, **b}`: later sources win -/")
+    out += _by_format("readerMerge", "List OptSrc", merges, "[]")
+    out.append("/-- `.option(k, v)` is `self.state_options[k] = v`; `.options(**o)` is `self.state_options = {**…, **…}`;")
+    out.append("    every `session.read` is a fresh reader whose `state_options` starts empty -/")
+    out.append("def optionSets : Bool := true")
+    out.append(f"def optionsMerge : List OptSrc := {_lean_list(o_order)}")
+    out.append("def readerStateFresh : Bool := true")
+    return out
+
+
+def _gen_duck_load(repo: str) -> t.List[str]:
+    ob = OBO + ".duckdbLoad"
+    cls = find_class(parse(repo, "sqlframe/duckdb/readwriter.py"), "DuckDBDataFrameReader")
+    fn = find_func(cls.body, "load")
+    a = fn.args
+    if [x.arg for x in a.args] != ["self", "path", "format", "schema"] or a.vararg or a.kwonlyargs or not a.kwarg or a.kwarg.arg != "options":
+        raise Untranslatable(ob, "signature is not load(self, path, format, schema, **options)")
+    body = _nodoc(fn.body)
+    if not body or not (isinstance(body[0], ast.Assign) and _dotted(body[0].targets[0]) == "merged_options"):
+        raise Untranslatable(ob, "load() does not start with merged_options = {…}")
+    order, keep = _merge_display(body[0].value, "self.state_options", "options", ob)
+    if keep != "true":
+        raise Untranslatable(ob, "load() filters the options it is given")
+    columns_for: t.List[str] = []
+    pops: t.List[str] = []
+    eq = None
+    reloads = False
+    fmt_default = False
+    for st in body[1:]:
+        s = _dotted(st)
+        touches = any(isinstance(n, ast.Name) and n.id in ("merged_options", "options") for n in ast.walk(st))
+        if s == "format = format or self.state_format_to_read":
+            fmt_default = True
+            continue
+        if isinstance(st, ast.If) and _dotted(st.test) == "schema":
+            for inner in st.body:
+                si = _dotted(inner)
+                it = any(isinstance(n, ast.Name) and n.id in ("merged_options", "options") for n in ast.walk(inner))
+                if not it:
+                    continue
+                if si.startswith("if merged_options.get('filename'):") and "merged_options" not in si[len("if merged_options.get('filename'):") :]:
+                    continue  # a read of the `filename` option that adds a select column (that option is never generated)
+                if isinstance(inner, ast.If) and isinstance(inner.test, ast.Compare) and _dotted(inner.test.left) == "format" and len(inner.test.ops) == 1 and isinstance(inner.test.ops[0], ast.Eq) and isinstance(inner.test.comparators[0], ast.Constant) and not inner.orelse:
+                    f = inner.test.comparators[0].value
+                    txt = [_dotted(x) for x in inner.body]
+                    want = [
+                        "duckdb_columns = ', '.join([f\"'{column}': '{dtype}'\" for column, dtype in column_mapping.items()])",
+                        "merged_options['columns'] = '{' + duckdb_columns + '}'",
+                    ]
+                    if txt != want:
+                        raise Untranslatable(ob, f"unsupported schema branch for format {f!r}: {' ; '.join(txt)[:120]!r}")
+                    columns_for.append(f)
+                    continue
+                raise Untranslatable(ob, f"the option dictionary is touched by {si[:70]!r}")
+            for inner in st.orelse:
+                if any(isinstance(n, ast.Name) and n.id in ("merged_options", "options") for n in ast.walk(inner)):
+                    raise Untranslatable(ob, f"the option dictionary is touched by {_dotted(inner)[:70]!r}")
+            continue
+        if isinstance(st, ast.If) and _dotted(st.test) == "format == 'delta'":
+            if any(isinstance(n, ast.Name) and n.id in ("merged_options", "options") for x in st.body for n in ast.walk(x)):
+                raise Untranslatable(ob, "delta branch touches the options")
+            if len(st.orelse) != 1 or not isinstance(st.orelse[0], ast.If) or _dotted(st.orelse[0].test) != "format":
+                raise Untranslatable(ob, "no `elif format:` branch")
+            br = st.orelse[0]
+            for inner in br.body:
+                si = _dotted(inner)
+                if isinstance(inner, ast.Expr) and isinstance(inner.value, ast.Call) and _dotted(inner.value.func) == "merged_options.pop":
+                    args = inner.value.args
+                    if eq is not None or len(args) != 2 or not (isinstance(args[0], ast.Constant) and isinstance(args[0].value, str)) or _dotted(args[1]) != "None":
+                        raise Untranslatable(ob, f"unsupported {si[:60]!r}")
+                    pops.append(args[0].value)
+                    continue
+                if si == "paths = ','.join([f\"'{path}'\" for path in ensure_list(path)])":
+                    continue
+                if si == "from_clause = f'read_{format}([{paths}], {to_csv(merged_options)})'":
+                    eq = "="
+                    continue
+                raise Untranslatable(ob, f"unsupported statement in the `elif format:` branch: {si[:80]!r}")
+            for inner in br.orelse:
+                if any(isinstance(n, ast.Name) and n.id in ("merged_options", "options") for n in ast.walk(inner)):
+                    raise Untranslatable(ob, "the no-format branch touches the options")
+            continue
+        if isinstance(st, ast.If) and _dotted(st.test) == "select_columns == [exp.Star()]":
+            if [_dotted(x) for x in st.body] != ["return self.load(path=path, format=format, schema=df.schema, **merged_options)"] or st.orelse:
+                raise Untranslatable(ob, f"unsupported re-load {_dotted(st)[:100]!r}")
+            reloads = True
+            continue
+        if touches:
+            raise Untranslatable(ob, f"the option dictionary is touched by {s[:70]!r}")
+    if eq is None or not fmt_default:
+        raise Untranslatable(ob, "load() does not render its options into read_<format>([paths], …)")
+    return [
+        "/-- DuckDB `load(path, format, schema, **options)`: `merged_options = {**a, **b}` -/",
+        f"def loadMerge : List OptSrc := {_lean_list(order)}",
+        "/-- `merged_options['columns'] = …` is added when a schema is given and the format is one of -/",
+        f"def loadColumnsFor : List String := {_lean_list(lean_str(f) for f in columns_for)}",
+        "/-- `merged_options.pop(k, None)` before rendering -/",
+        f"def loadPops : List String := {_lean_list(lean_str(p) for p in pops)}",
+        f"def loadEq : String := {lean_str(eq)}",
+        "/-- without a schema the file is read once for its schema and `load` is called again with that schema and the merged options -/",
+        f"def loadReloadsWithSchema : Bool := {str(reloads).lower()}",
+    ]
+
+
+OPTIONS_PRELUDE = """/-- a Python value given for an option -/
+inductive OptVal
+  | none
+  | bool (b : Bool)
+  | str (s : String)
+  | int (i : Int)
+  deriving DecidableEq, Repr, Inhabited
+
+def OptVal.isNone : OptVal → Bool | .none => true | _ => false
+/-- Python truthiness -/
+def OptVal.truthy : OptVal → Bool
+  | .none => false
+  | .bool b => b
+  | .str s => s != ""
+  | .int i => i != 0
+/-- `str(v)` as an f-string renders it -/
+def OptVal.pyStr : OptVal → String
+  | .none => "None"
+  | .bool true => "True"
+  | .bool false => "False"
+  | .str s => s
+  | .int i => toString i
+
+/-- a keyword argument of a forwarding call: a literal, or one of the caller's parameters -/
+inductive WArg
+  | lit (s : String)
+  | param (p : String)
+  deriving DecidableEq, Repr
+
+/-- operand of a `{**a, **b}` merge: the reader's stored options or the options of this call -/
+inductive OptSrc | state | call
+  deriving DecidableEq, Repr
+"""
+
+
+def gen_options(repo: str) -> str:
+    cls = find_class(parse(repo, "sqlframe/base/readerwriter.py"), "_BaseDataFrameWriter")
+    out = [HEADER, "set_option linter.unusedVariables false", "namespace Sqlframe.Gen", "", OPTIONS_PRELUDE]
+    out += _gen_to_csv(repo)
+    out.append("")
+    out += _gen_writer_entries(cls)
+    out.append("")
+    out += _gen_duck_write_opts(repo)
+    out.append("")
+    out += _gen_reader_entries(repo)
+    out.append("")
+    out += _gen_duck_load(repo)
+    out.append("")
+    out.append("end Sqlframe.Gen")
+    return "\n".join(out) + "\n"
+
+
+GENERATORS = {"Writer": gen_writer, "C14Options": gen_options}
